@@ -68,11 +68,18 @@ R.lemma('C09/round-trip/step-PV', vars={'v': 'PV'},
     hyps=RT_AX + [C("implies(is_PTuple(v), implies(wfv_list(titems(v)), norm_list(deser_list(ser_list(titems(v)))) == rtmap_list(titems(v))))", 'IH tuple items'),
                   C("(ents_has(ser_ents(fents(v)), '_is_task') == ents_has(fents(v), '_is_task')) and (ents_has(ser_ents(fents(v)), '_is_enum') == ents_has(fents(v), '_is_enum'))",
                     'two INSTANCES of THEOREM C09/keys-kept (proved by its own induction step): x := fents(v), k := each marker key'),
-                  C("implies(is_PFrozen(v), implies(wfv_ents(fents(v)), norm_ents(deser_ents(ser_ents(fents(v)))) == rtmap_ents(fents(v))))", 'IH frozendict entries')],
+                  C("implies(is_PFrozen(v), implies(wfv_ents(fents(v)), norm_ents(deser_ents(ser_ents(fents(v)))) == rtmap_ents(fents(v))))", 'IH frozendict entries'),
+                  C("implies(is_PFrozen(v) and wfv(v), (not marked(ser(v), '_is_task')) and (not marked(ser(v), '_is_enum')))",
+                    'LEMMA C09/round-trip/frozendict-unmarked (proved separately): the serialised form of a reserved-free dict parameter carries no marker')],
     goal="implies(wfv(v), norm(deser(ser(v))) == rtmap(v))", serves=('C09',), note='constructing the task again normalises lists back to tuples and dicts to frozendicts',
     # proved by cases, each with only the hypotheses it needs (0,1 = RT axioms; 2 = IH tuple; 3 = keys-kept instances; 4 = IH frozendict)
     cases={'scalar': ('is_PNone(v) or is_PBool(v) or is_PInt(v) or is_PFloat(v) or is_PStr(v)', []), 'enum': ('is_PEnum(v)', [1]), 'task': ('is_PTask(v)', [0]),
-           'tuple': ('is_PTuple(v)', [2]), 'frozendict': ('is_PFrozen(v)', [3, 4]), 'unnormalised': ('is_PList(v) or is_PDict(v) or is_POther(v)', [])})
+           'tuple': ('is_PTuple(v)', [2]), 'frozendict': ('is_PFrozen(v)', [4, 5]), 'unnormalised': ('is_PList(v) or is_PDict(v) or is_POther(v)', [])})
+R.lemma('C09/round-trip/frozendict-unmarked', vars={'v': 'PV'},
+    hyps=[C("(ents_has(ser_ents(fents(v)), '_is_task') == ents_has(fents(v), '_is_task')) and (ents_has(ser_ents(fents(v)), '_is_enum') == ents_has(fents(v), '_is_enum'))",
+            'two INSTANCES of THEOREM C09/keys-kept: x := fents(v), k := each marker key')],
+    goal="implies(is_PFrozen(v) and wfv(v), (not marked(ser(v), '_is_task')) and (not marked(ser(v), '_is_enum')))", serves=('C09', 'C07'),
+    note='a dict parameter without the marker keys serialises to a document without them')
 R.lemma('C09/round-trip/step-PL', vars={'l': 'PL'},
     hyps=RT_AX + [C("implies(is_LCons(l), implies(wfv(head(l)), norm(deser(ser(head(l)))) == rtmap(head(l))) and implies(wfv_list(tail(l)), norm_list(deser_list(ser_list(tail(l)))) == rtmap_list(tail(l))))", 'IH head and tail')],
     goal="implies(wfv_list(l), norm_list(deser_list(ser_list(l))) == rtmap_list(l))", serves=('C09',))
